@@ -87,6 +87,8 @@ def check_view_accessors(ctx, F, tag):
 
 def check_config(ctx, F, tag):
     check_view_accessors(ctx, F, tag)
+    import c06
+    c06.check_refusal_inventory(ctx, F, tag, "C13.R2.mapper-refusals-reviewed", lambda n: n.endswith("serialize::MemoryMapped<'a>>::new"))
     if not getattr(ctx, "_map", None):
         import c14
         from core import Relabel
@@ -95,8 +97,10 @@ def check_config(ctx, F, tag):
                                        "C14.R1.io-result-propagated": ("C13.R4.refusal-propagates.io-result-propagated", mapped_fn)}), F, tag, views=False)
     mapped.check_views(ctx, F, tag, prefix="C13.R1")
     impls = {im["self"]: im for im in serfmt.serialize_impls(F)}
+    ctx0 = ctx
     for im, b in mapped.views(F):
         name = im["self_ty"].get("def")
+        ctx = mapped.Softened(ctx0, mapped.unmodelled_slice_calls(b))
         items = {i["name"]: i["def"] for i in im["items"]}
         mo = F.body(items["map_offset"])
         ml = F.body(items["map_len"])
@@ -134,9 +138,27 @@ def check_config(ctx, F, tag):
             own = impls[OWNED[name]]["fns"]["size_in_elements"]
             o_nf = normal_form(own.term_of_local(0), lambda x: x[0] == "call" and x[1].endswith("::len") and core(x[2][0])[:2] == ("param", 0))
             ok = g_nf == m_nf == o_nf and len_ok
+            sem = ""
+            refuted = False
+            if not ok and len_ok:
+                # written differently: decide the three formulas over the residues of the length (A13) -- equal for every length,
+                # or different for a length the witness names (`len / 8` for `bytes_to_words(len)`: one word short unless 8 | len)
+                import residues
+                p_g = lambda x: strip_casts(x) == n
+                p_m = lambda x: x[0] == "call" and x[1] == len_names[0] and core(x[2][0])[:2] == ("param", 0)
+                p_o = lambda x: x[0] == "call" and x[1].endswith("::len") and core(x[2][0])[:2] == ("param", 0)
+                r1 = residues.equiv_n(F, rebuild_sum(g_leaves), p_g, ml.term_of_local(0), p_m)
+                r2 = residues.equiv_n(F, ml.term_of_local(0), p_m, own.term_of_local(0), p_o)
+                if r1[0] is True and r2[0] is True:
+                    ok, sem = True, "; equal for every length (residues)"
+                elif r1[0] is False or r2[0] is False:
+                    refuted = True
+                    sem = "; REFUTED over residues: guard vs map_len %s; map_len vs size_in_elements %s" % (r1[1] or "equal", r2[1] or "equal")
+                else:
+                    sem = "; residues: not evaluable (%s / %s)" % (r1[1], r2[1])
             ctx.ob("C13.R2.length-formulas-agree", name + tag, where, ok, "formula-agreement",
-                   "guard: offset + %s <= map.len(); map_len() = %s; %s::size_in_elements() = %s; len() reads the data field: %s" % (
-                       show(g_nf), show(m_nf), OWNED[name].split("::")[-1], show(o_nf), len_ok))
+                   "guard: offset + %s <= map.len(); map_len() = %s; %s::size_in_elements() = %s; len() reads the data field: %s%s" % (
+                       show(g_nf), show(m_nf), OWNED[name].split("::")[-1], show(o_nf), len_ok, sem), positive=refuted)
             # the data field is the carved slice and offset is the parameter
             aggs = [st for bi, si, st in b.stmts() if st["s"] == "assign" and st["rv"]["r"] == "agg" and st["rv"].get("def") == name]
             okf = len(aggs) == 1
